@@ -1,5 +1,6 @@
 import HttpcoreModel.Drv.Common
 import HttpcoreModel.Sys.Model
+import Std.Data.HashSet
 /-!
 Driver side of the `Sys` conformance check: given the candidate model states that matched the previous observation of the
 real pool and the next observation (a projection: ghost owners unknown), search the model's step relation breadth-first for
@@ -8,10 +9,15 @@ states that match it. An empty answer means the implementation did something no 
 namespace Httpcore.Drv.SysD
 open Httpcore Httpcore.Sys Httpcore.Drv
 
+deriving instance Hashable for CStatus
+deriving instance Hashable for Conn
+deriving instance Hashable for PC
+deriving instance Hashable for Sys.Task
+
 structure FState where
   conns : List Conn
   tasks : List Task
-  deriving DecidableEq, Repr
+  deriving DecidableEq, Repr, Hashable
 
 def toState (f : FState) : State :=
   { conns := fun i => f.conns.getD i {}, tasks := fun i => f.tasks.getD i {} }
@@ -45,15 +51,17 @@ def succs (f : FState) (faults cancels closing : Bool) : List FState :=
 def projConn (c : Conn) : CStatus × Bool × Bool := (c.status, c.inPool, c.streamOpen)
 def proj (f : FState) : List (CStatus × Bool × Bool) × List Task := (f.conns.map projConn, f.tasks)
 
-def insertNew (seen : List FState) (xs : List FState) : List FState × List FState :=
-  xs.foldl (fun acc x => if acc.1.contains x then acc else (x :: acc.1, x :: acc.2)) (seen, [])
-
-def bfs : Nat → List FState → List FState → Bool → Bool → Bool → List FState
-  | 0, seen, _, _, _, _ => seen
-  | d + 1, seen, frontier, fa, ca, cl =>
-    let next := frontier.flatMap fun f => succs f fa ca cl
-    let r := insertNew seen next
-    if r.2.isEmpty then r.1 else bfs d r.1 (r.2.take 4000) fa ca cl
+/-- breadth-first search with a visited set; stops at `depth`, when nothing new appears, or when `budget` states were visited
+(the third component says whether the budget ran out) -/
+partial def bfs (depth budget : Nat) (seen : Std.HashSet FState) (frontier : List FState) (fa ca cl : Bool) :
+    Std.HashSet FState × Bool :=
+  if depth = 0 || frontier.isEmpty then (seen, false)
+  else if seen.size > budget then (seen, true)
+  else
+    let step := frontier.foldl (fun (acc : Std.HashSet FState × List FState) f =>
+      (succs f fa ca cl).foldl (fun (a : Std.HashSet FState × List FState) x =>
+        if a.1.contains x then a else (a.1.insert x, x :: a.2)) acc) (seen, [])
+    bfs (depth - 1) budget step.1 step.2 fa ca cl
 
 def statusCode : CStatus → String
   | .absent => "a" | .fresh => "f" | .connecting => "c" | .failed => "x" | .new => "n" | .active => "A" | .idle => "i" | .closed => "z"
@@ -109,16 +117,17 @@ def parseF (s : String) : Option FState :=
   | _ => none
 
 /-- `sysreach <depth> <flags: f|-,c|-,p|-> <cand;cand;…> <target>` -> the model states within `depth` steps of a candidate
-whose projection equals the target's (`;`-separated, at most 40), or `none` -/
+whose projection equals the target's (`;`-separated, at most 40), `none`, or `budget` (search abandoned: 60000 states) -/
 def sysreach (args : List String) : String :=
   match args with
   | [depth, flags, cands, target] =>
     match depth.toNat?, optAll ((cands.splitOn ";").map parseF), parseF target with
     | some d, some cs, some tg =>
       let fl := flags.toList
-      let all := bfs d cs cs (fl.getD 0 '-' = 'f') (fl.getD 1 '-' = 'c') (fl.getD 2 '-' = 'p')
-      let hits := all.filter fun f => proj f = proj tg
-      if hits.isEmpty then "none" else joinWith ";" ((hits.take 40).map showF)
+      let r := bfs d 60000 (Std.HashSet.ofList cs) cs (fl.getD 0 '-' = 'f') (fl.getD 1 '-' = 'c') (fl.getD 2 '-' = 'p')
+      let hits := r.1.toList.filter fun f => proj f = proj tg
+      if !hits.isEmpty then joinWith ";" ((hits.take 40).map showF)
+      else if r.2 then "budget" else "none"
     | _, _, _ => "bad-args"
   | _ => "bad-args"
 
